@@ -52,7 +52,7 @@ def quick_deviations():
     # guard cells 0 and 2
     for orth in (True, False):
         out.append(mk("lsn", orth, opt=dict(y_boundary_guards=0), tags=["guards"]))
-        out.append(mk("lsn", orth, opt=dict(y_boundary_guards=2), tags=["guards"]))
+        out.append(mk("lsn", orth, opt=dict(y_boundary_guards=2, ny_inner_divertor=6, ny_outer_divertor=6), tags=["guards"]))
     out.append(mk("cdn", True, opt=dict(y_boundary_guards=0), tags=["guards"]))
     # slanted wall
     out.append(mk("lsn", False, wall="W6", tags=["wall"]))
@@ -77,7 +77,7 @@ def quick_deviations():
     # x-y derivative curvature
     out.append(mk("lsn", True, opt=dict(curvature_type="curl(b/B) with x-y derivatives"), tags=["curv"]))
     # dct interpolation (slow: one member in the quick tier)
-    out.append(mk("lsn", True, opt=dict(psi_interpolation_method="dct"), nR=33, nZ=33, tags=["dct"]))
+    out.append(mk("lsn", True, opt=dict(psi_interpolation_method="dct"), nR=33, nZ=41, tags=["dct"]))
     return out
 
 
@@ -91,8 +91,9 @@ def thorough_deviations():
                 out.append(mk(T["geom"], T["orth"], **kw))
 
             m(sigma=-1.0, tags=["sigma"])
-            for gd in (0, 2):
-                m(opt=dict(y_boundary_guards=gd), tags=["guards"])
+            m(opt=dict(y_boundary_guards=0), tags=["guards"])
+            m(opt=dict(y_boundary_guards=2, ny_inner_divertor=6, ny_outer_divertor=6), tags=["guards"])
+            m(opt=dict(y_boundary_guards=3, ny_inner_divertor=8, ny_outer_divertor=8), tags=["guards"])
             for w in ("W1", "W2", "W3", "W6", "W6m"):
                 m(wall=w, tags=["wall"])
             m(opt=dict(reverse_current=True), tags=["signs"])
@@ -114,9 +115,9 @@ def thorough_deviations():
             m(opt=dict(target_all_poloidal_spacing_length=0.2), tags=["pol"])
             m(profile_ext=True, fpol="quad", tags=["profiles"])
             m(fpol="const", pressure="none", tags=["profiles"])
-            m(nR=33, nZ=33, tags=["res"])
-            m(nR=65, nZ=97, tags=["res"])
-            m(nR=129, nZ=129, tags=["res"])
+            m(nR=33, nZ=41, tags=["res"])
+            m(nR=65, nZ=129, tags=["res"])
+            m(nR=129, nZ=165, tags=["res"])
             m(opt=dict(finecontour_Nfine=100), tags=["nfine"])
             m(opt=dict(follow_perpendicular_rtol=2e-6, follow_perpendicular_atol=1e-6), tags=["fp"])
             m(opt=dict(follow_perpendicular_rtol=2e-10, follow_perpendicular_atol=1e-10), tags=["fp"])
@@ -134,8 +135,8 @@ def thorough_deviations():
                 m(opt=dict(start_at_upper_outer=True), tags=["upper_outer"])
             if g in ("udn", "ldn", "udn2"):
                 m(opt=dict(nx_inter_sep=2), tags=["sizes"])
-        out.append(mk(g, True, opt=dict(psi_interpolation_method="dct"), nR=33, nZ=33, tags=["dct"]))
-    out.append(mk("lsn", False, opt=dict(psi_interpolation_method="dct"), nR=33, nZ=33, tags=["dct"]))
+        out.append(mk(g, True, opt=dict(psi_interpolation_method="dct"), nR=33, nZ=41, tags=["dct"]))
+    out.append(mk("lsn", False, opt=dict(psi_interpolation_method="dct"), nR=33, nZ=41, tags=["dct"]))
     out.append(mk("lsn", False, opt=dict(number_of_processors=2), tags=["np"]))
     return out
 
